@@ -464,4 +464,6 @@ func checkC07(c *Ctx) {
 			r.Unk("C07.index", fnName(f)+":items[len-pos]", p.Pos(f.Pos()), "no items[len(items)-pos] read found — rule table needs review")
 		}
 	}
+	checkC07InitKey(c)
+	checkC07ResetRewinds(c)
 }
